@@ -39,7 +39,7 @@ func (w *work) stream(family, detail string, pos int, kinds []kind, input []byte
 	}
 }
 
-var encKinds = []kind{unpackStaged, unpackEncDirect, loadArchive, unpackStagedForce}
+var encKinds = []kind{unpackStaged, unpackEncDirect, loadArchive, unpackStagedForce, unpackStagedEmpty}
 
 // reencrypt seals an arbitrary TAR stream to the recipient's public key (anyone holding the public key can do this).
 func (e *env) reencrypt(tarBytes []byte) []byte {
